@@ -15,9 +15,10 @@ CONFIG = {
             "freeze / clawback address, creator closing out, destroy while others hold), application failures (rejecting program, err, budget exhaustion, "
             "schema overflow, box of an under-funded application, failing inner transaction after earlier inner transactions succeeded, opt-in twice, close-out "
             "without opt-in, missing application), genesis hash, fee shortfall, inconsistent / zero / wrong "
-            "group id, oversized group, unknown type, fee sink spending) at a random position of a group of 1..17; after every TransactionGroup "
+            "group id, oversized group, unknown type, fee sink spending) at a random position of a group of 1..17; about 14% of the groups are \"write again, then fail\" probes: fresh copies (new txids) of the transactions of a group accepted earlier in the SAME block -- so every record they write (account data, asset params / holdings, application params incl. the ForeignBoxReads / FamilyBoxAccess flags of app_params_set, global / local state, boxes) already has an entry in an ancestor cow -- with inverted app_params_set values, followed by an overspending member; "
+            "after every TransactionGroup "
             "call the evaluator is snapshotted from inside the package (account table through eval.state.lookup, asset params / holdings / creators through GetAssetParams / "
-            "GetAssetHolding / GetCreator, application params / local states / creators / storage counts / boxes, mods.Accts order, Txids with Intra, Txleases, txnCount, feesCollected, len(Payset)).  spec_ok = a rejected group leaves the snapshot identical; an accepted one "
+            "GetAssetHolding / GetCreator, application params (incl. ForeignBoxReads / FamilyBoxAccess) / local states / creators / storage counts / boxes, mods.Accts order, Txids with Intra, Txleases, txnCount, feesCollected, len(Payset)).  spec_ok = a rejected group leaves the snapshot identical; an accepted one "
             "adds exactly its transactions (payset, txids in order, counters, fees, leases).  Panics are injected WITHOUT a tracer into about 8% of the "
             "groups: the scripted ledger's CheckDup panics while transaction i of the loop is evaluated, or the parent cow's (still empty) Txids / sdeltas map is "
             "set to nil in-package so that commitToParent panics after the Payset append and the earlier merge steps; eval.corruptedState is part of every "
@@ -29,9 +30,10 @@ CONFIG = {
                    "Go evaluator (incl. the sync.Pool reuse of child cows) against it on random histories",
     "assumptions": [
         "transaction types: payment (with close), key registration, rekey, asset config / transfer / freeze, application calls (programs = arbitrary "
-        "scripts of box / global / local / inner-transaction operations ending in approve, reject, err or budget exhaustion; inner failures such as "
+        "scripts of box / global / local / app_params_set (v13) / inner-transaction operations ending in approve, reject, err or budget exhaustion; inner failures such as "
         "overspending inner payments); NOT modelled: inner application calls, UpdateApplication",
         "signature checking happens before the evaluator (verify package, C28); the evaluator's authorizer check is modelled",
+        "genuine evaluator panic found and modelled (E_PANIC in check_min_balance / mods_consistent): app_params_set on an application whose creator closed out of it earlier in the same block, in a group that has not touched the creator account -> putAppParams copies the Deleted local-state marker without the account record and AccountDeltas.ModifiedAccounts panics (\"account app state delta: addr ... not in base account\"); the group is rejected with EvalPanicError, state unchanged, not corrupted (harness stat panic_not_injected)",
         "recovered panics are modelled as panic points (any transaction of the loop; after the Payset append and any number of commitToParent steps) with "
         "eval.corruptedState; not modelled: blockTxBytes / ErrNoSpace, tracer hooks (incl. the deferred AfterTxnGroup hook), TestTransactionGroup",
     ],
